@@ -12,8 +12,8 @@ def main():
     for pid in sorted(props.PROPS):
         jobs = props.PROPS[pid]("quick")[0]
         for j in jobs:
-            if j.kind != "cbmc":
-                continue
+            if j.kind != "cbmc" or getattr(j, "probe", False):
+                continue                      # probes have no native form of their own (their confirmation harness is covered)
             key = (os.path.basename(j.harness), j.defines.get("VARIANT"), j.defines.get("API"), j.defines.get("MODE"), j.defines.get("FAMILY"),
                    j.config, bool(j.instrument))
             if key in seen:
